@@ -1,14 +1,19 @@
 """C09: SER-PRIM, SER-NZ, SER-MK, SER-SYM, SER-THREAD, SER-VEC, SER-TOP (DESIGN §3/C09)."""
-from . import core
+from . import core, loops
 from .core import Callee, walk, show
 from .view import FnView, pnorm, OPTION
-from .pat import m, ANY, V, K, Par, C, F, E, P, B, Phi, members
+from .pat import m, ANY, V, K, Par, C, F, E, P, B, Phi, OneOf, members, It
 from .da import Sites, endswith, anykey
 from .search import switches_on
 
 SER = "serializer::Serializable"
 SERV = "serializer::SerializableVec"
 W, R_, SZ = "serialize_to_vec", "deserialize_from_slice", "serialized_bytes"
+
+
+def pat_strip(t):
+    from .pat import strip_iter, iter_origin
+    return strip_iter(iter_origin(t))
 
 
 def order_calls(body, calls):
@@ -113,9 +118,12 @@ def _nz(ctx, lib, sty, bodies):
     wb, rb, sb = bodies[W], bodies[R_], bodies[SZ]
     S = Sites(lib, wb)
     ws = [s for s in S.calls if s["name"] == W]
-    ok = len(ws) == 1 and self_ty(ws[0]["c"]) == "u32" and m(Par(2), ws[0]["args"][1]) and \
-        m(C("core::option::Option::map_or", Par(1), K(0), ("fn", "core::num::NonZero::get")), ws[0]["args"][0])
-    ctx.check(ok, "SER-NZ", wb, "writer", wb.span, "Option<NonZeroU32> must be written as the u32 `map_or(0, get)`; found %s"
+    nsw = len([1 for bi in wb.live_blocks() if wb.blocks[bi]["term"]["k"] == "switch"])
+    ok = len(ws) == 1 and self_ty(ws[0]["c"]) == "u32" and m(Par(2), ws[0]["args"][1]) and (
+        m(C("core::option::Option::map_or", Par(1), K(0), ("fn", "core::num::NonZero::get")), ws[0]["args"][0]) or
+        # explicit match: 0 for None, the integer inside for Some (NonZero::get is value preserving) — one two-way branch only
+        (m(Phi(K(0), P(Par(1)), req=[0, 1]), ws[0]["args"][0]) and nsw == 1))
+    ctx.check(ok, "SER-NZ", wb, "writer", wb.span, "Option<NonZeroU32> must be written as the u32 `map_or(0, get)` (0 for None, the value for Some); found %s"
               % [show(s["args"][0]) for s in ws])
     RS = Sites(lib, rb)
     rs = [s for s in RS.calls if s["name"] == R_]
@@ -213,20 +221,16 @@ def _vec(ctx, lib, sty, bodies):
     wb, rb, sb = bodies[W], bodies[R_], bodies[SZ]
     S = Sites(lib, wb)
     ws = [s for s in S.calls if s["name"] == W]
-    root_ws = [s for s in ws if s["vw"] is S.root]
-    clos_ws = [s for s in ws if s["vw"] is not S.root]
-    ok = len(root_ws) == 1 and self_ty(root_ws[0]["c"]) == "u32" and m(C("alloc::vec::Vec::len", Par(1)), root_ws[0]["args"][0]) and \
-        m(Par(2), root_ws[0]["args"][1])
+    pre = [s for s in ws if m(C("alloc::vec::Vec::len", Par(1)), s["args"][0])]
+    elw = [s for s in ws if s not in pre]
+    ok = len(pre) == 1 and pre[0]["vw"] is S.root and self_ty(pre[0]["c"]) == "u32" and m(Par(2), pre[0]["args"][1])
     ctx.check(ok, "SER-VEC", wb, "length-prefix", wb.span, "a Vec is written as u32(len) first")
-    fe = S.keyed(lambda k: core.callee_base(k) == "core::iter::Iterator::for_each")
-    ok2 = len(clos_ws) == 1 and len(fe) == 1 and m(C("core::slice::iter", Par(1)), fe[0]["args"][0]) and \
-        m(("item", C("core::slice::iter", Par(1))), clos_ws[0]["args"][0]) and m(Par(2), clos_ws[0]["args"][1])
-    if not ok2:
-        # alternative: explicit for loop
-        pulls = S.keyed(lambda k: core.callee_base(k) == "core::iter::Iterator::next")
-        ok2 = len(pulls) == 1 and len(ws) == 2 and m(Par(1), pulls[0]["args"][0])
-    if ok and ok2 and fe:
-        ok2 = wb.dominates(root_ws[0]["bb"], fe[0]["bb"])
+    # every element in order: for_each / for loop over the whole vector (item of iter(self) / into_iter(&self))
+    drivers = [s for s in S.calls if s["vw"] is S.root and core.callee_base(s["key"]) in ("core::iter::Iterator::for_each", "core::iter::Iterator::next")]
+    ok2 = len(elw) == 1 and len(drivers) == 1 and m(It(OneOf(Par(1), C("core::slice::iter", Par(1)))), elw[0]["args"][0]) and \
+        m(Par(2), elw[0]["args"][1]) and m(Par(1), pat_strip(drivers[0]["args"][0]))
+    if ok and ok2:
+        ok2 = wb.dominates(pre[0]["bb"], drivers[0]["bb"])
     ctx.check(ok2, "SER-VEC", wb, "elements-in-order", wb.span, "then every element, in order, into the same buffer")
     RS = Sites(lib, rb)
     rs = order_calls(rb, [s for s in RS.calls if s["name"] == R_])
@@ -235,8 +239,9 @@ def _vec(ctx, lib, sty, bodies):
         first = C(anykey, ANY, site=(rb.path, rs[0]["bb"]))
         el = C(anykey, ANY, site=(rb.path, rs[1]["bb"]))
         # loop bound: 0..len read
-        pulls = RS.keyed(lambda k: core.callee_base(k) == "core::iter::Iterator::next")
-        okr = len(pulls) == 1 and m(("agg", "core::ops::Range", "Range", (("start", K(0)), ("end", F(first, "0", "(tuple)")))), pulls[0]["args"][0])
+        # loop bound: the element read runs exactly n = (the u32 read) times, in any loop form
+        n = loops.trip_count(RS, rs[1]["bb"])
+        okr = n is not None and m(F(first, "0", "(tuple)"), n)
         # threading: element reads start at first.1 and continue at their own remainder
         okr = okr and m(Phi(F(first, "1", "(tuple)"), F(el, "1", "(tuple)"), req=[0, 1]), rs[1]["args"][0])
         pushes = RS.keyed(lambda k: k == "alloc::vec::Vec::push")
